@@ -613,7 +613,7 @@ class C01(Check):
             "variant per field differing in exactly that field, typed-constant variants (1 / 1.0 / "
             "True), normalisation variants (operator by name, dict vs immutabledict keyword "
             "arguments in either order, scope None), same-field instances of neighbouring classes; "
-            "for each of the 85 generated user classes (decorated / undecorated / legacy / mixed "
+            "for each of the 93 generated user classes (decorated / undecorated / legacy / mixed "
             "hierarchies, init=False / hash=False) an instance, one variant per field and the "
             "same-field instances of the base class and of sibling classes; for built-in and user "
             "classes variants whose differing constants collide under hash() (-1/-2, 0/2**61-1); ALL ordered pairs of the pool against the "
